@@ -90,6 +90,7 @@ class Run:
         self.calls = {}
         self.ops = []
         self.decls = []
+        self.decoy_seed = None
         meths = set()
         for ln in lines:
             t = ln.split()
@@ -115,10 +116,13 @@ class Run:
                 self.ops.append(t[1:])
             elif t[0] == 'hint':
                 pass
+            elif t[0] == 'decoy':
+                self.decoy_seed = int(t[1])
             elif not self.parse_extra(t):
                 raise ValueError(f'bad scenario line {ln!r}')
         self.root = self.make_root(meths)
         self.disp = make_dispatcher()
+        self.make_dispatcher = make_dispatcher
 
     def make_root(self, meths):
         run = self
@@ -159,7 +163,41 @@ class Run:
                 self.obs.append(f'events {cid} ' +
                                 (','.join(f'{k}:{v}' for k, v in sorted(ev.items())) or '-'))
 
+    def decoy_step(self, t):
+        """A second dispatcher of the same class, with its own handler objects, runs a perturbed copy of the
+        previous top-level operation; whatever it does or raises is its own business."""
+        import random
+        if self.disp2 is None:
+            self.disp2 = self.make_dispatcher() or EventDispatcher()
+            self.dobjs = {}
+            for d in self.decls:
+                if d[0] == 'obj':
+                    o = self.classes[d[2]]()
+                    o._oid, o._h, o._decoy = d[1], (int(d[3]) if d[3] is not None else id(o) >> 4), True
+                    self.dobjs[d[1]] = o
+        rng = random.Random(self.decoy_seed * 7919 + len(self.obs))
+        d2 = self.disp2
+        try:
+            k = t[0]
+            if k in ('add', 'remove'):
+                o = self.dobjs.get(int(t[1]) if rng.random() < 0.5 else rng.choice(list(self.dobjs)))
+                if o is not None:
+                    (d2.add_handler if k == 'add' or rng.random() < 0.3 else d2.remove_handler)(o)
+            elif k == 'dispatch':
+                args, kwargs = dec_args(t[2])
+                d2.dispatch(t[1], 'decoy', *args, **kwargs)
+            elif k == 'enable':
+                d2.dispatch_enabled = not bool(int(t[1])) if rng.random() < 0.7 else bool(int(t[1]))
+            elif k == 'clear' and rng.random() < 0.3:
+                d2.clear()
+        except Exception:       # noqa
+            pass
+
+    disp2 = None
+
     def on_call(self, recv, mname, args, kwargs, where='R'):
+        if getattr(recv, '_decoy', False):
+            return
         oid = None if recv is None else recv._oid
         self.obs.append(f'{self.prefix}cb {oid} {mname}@{where} {self.enc(args, kwargs)}')
         if oid is None:
@@ -230,7 +268,12 @@ class Run:
 
     def go(self):
         self.build()
+        prev = None
         for t in self.ops:
+            if self.decoy_seed is not None:
+                if prev is not None:
+                    self.decoy_step(prev)
+                prev = t
             self.top(t)
         recv = [o.split()[-3] for o in self.obs if ' cb ' in ' ' + o and o.split()[-3] != 'None']
         hints = [f'hint {",".join(recv)}'] if recv else []
